@@ -1,7 +1,7 @@
 SPECIFICATION Spec
 CONSTANTS
   CoreCfg = "two"
-  MaxStore = 5
+  MaxStore = 4
   MaxDead = 1
   MaxRev = 1
 INVARIANTS Sound LocalEmpty Sufficient
